@@ -135,12 +135,23 @@ def enumerate_grid(tier):
     } for s in sizes for k in kinds for a in dsops.HASHES]
 
 
-def strategy_dataset(tier):
-    return hist_common.st_history_case(
-        tier,
-        tfrec_weight=0,
-        hashes=st.lists(st.sampled_from(dsops.HASHES), min_size=1, max_size=13),
-        max_ops=4)
+@st.composite
+def strategy_dataset(draw, tier):
+    case = draw(
+        hist_common.st_history_case(
+            tier,
+            tfrec_weight=0,
+            hashes=st.lists(st.sampled_from(dsops.HASHES), min_size=1,
+                            max_size=13),
+            max_ops=4))
+    # some sessions never publish (killed before their final update): the
+    # statement about recorded checksums is unconditional
+    eps = case["desc"]["eps"]
+    for i, op in enumerate(case["ops"]):
+        if op["k"] == "filler" and draw(st.integers(0, 4)) == 0 and \
+                i < len(case["ops"]) - 1:
+            op["k"] = "unpublished"
+    return case
 
 
 def run_dataset(case, ctx):
@@ -153,8 +164,16 @@ def run_dataset(case, ctx):
         state["files"] += 1
 
     def after(h, info):
+        if info["kind"] == "unpublished":
+            # like a crash state: parents legitimately hold the checksums of
+            # the previous versions until the next completed session
+            return
         tree = dsops.walk_dataset(h.root)
         for split, entry in tree["splits"].items():
+            if h.tainted and split not in info.get("splits", []):
+                # only the splits a completed session touched are re-merged
+                # (and must be exact again) after an unpublished session
+                continue
             s = entry["summary"]["shard_list_info_file"]
             verify(h, "dataset_info.json", s["file_path"],
                    s.get("hash_checksums", []))
@@ -166,6 +185,8 @@ def run_dataset(case, ctx):
                     c = ch["summary"]["shard_list_info_file"]
                     verify(h, node["rel"], c["file_path"],
                            c.get("hash_checksums", []))
+        if h.tainted:
+            return
         got = h.ds.current_metadata_checksums()
         check_tuple(ctx, "current_metadata_checksums", algos, got,
                     (h.root / "dataset_info.json").read_bytes())
@@ -202,7 +223,7 @@ STAGES = [
           setup=setup),
     Stage(name="dataset",
           run=run_dataset,
-          strategy=strategy_dataset,
+          strategy=lambda tier: strategy_dataset(tier),
           examples={
               "quick": 160,
               "thorough": 8000
